@@ -114,3 +114,54 @@ def try_ancestors(fi: FuncInfo, node: ast.AST) -> List[ast.Try]:
             if contains(a.body):
                 out.append(a)
     return out
+
+
+# ---------------------------------------------------------------------------------------------- value-flow helpers
+def attr_stores(fi: FuncInfo, attr: str, self_ok: bool = True) -> List[Tuple[ast.stmt, ast.AST, ast.AST]]:
+    """(statement, receiver expression, stored value) for every `<recv>.<attr> = value` in fi (all targets of an Assign,
+    annotated assignments, setattr(recv, 'attr', value))."""
+    out = []
+    for s in ast.walk(fi.node):
+        if isinstance(s, ast.Assign):
+            for t in s.targets:
+                if isinstance(t, ast.Attribute) and t.attr == attr:
+                    out.append((s, t.value, s.value))
+        elif isinstance(s, ast.AnnAssign) and isinstance(s.target, ast.Attribute) and s.target.attr == attr and s.value is not None:
+            out.append((s, s.target.value, s.value))
+        elif isinstance(s, ast.Expr) and isinstance(s.value, ast.Call) and unparse(s.value.func) == "setattr" and len(s.value.args) == 3 \
+                and isinstance(s.value.args[1], ast.Constant) and s.value.args[1].value == attr:
+            out.append((s, s.value.args[0], s.value.args[2]))
+    if not self_ok:
+        out = [(s, r, v) for s, r, v in out if not (isinstance(r, ast.Name) and r.id == "self")]
+    return out
+
+
+def flows_from(fi: FuncInfo, stmt: ast.AST, value: ast.AST, sources, rd=None, depth: int = 8) -> bool:
+    """Does one of the `sources` (AST nodes, or a predicate on nodes) flow into `value` evaluated at `stmt` through local
+    definitions (assignments, loops, comprehensions, unpacking)?"""
+    from engine.dataflow import ReachingDefs, backward_slice_exprs
+    rd = rd or ReachingDefs(fi.node)
+    sl = backward_slice_exprs(rd, stmt, value, depth)
+    if callable(sources):
+        return any(sources(n) for e in sl for n in ast.walk(e))
+    ids = {id(n) for n in sources}
+    return any(id(n) in ids for e in sl for n in ast.walk(e))
+
+
+def returned_names(fi: FuncInfo) -> List[str]:
+    """Names that `fi` returns (`return x`), in order of appearance, de-duplicated."""
+    out: List[str] = []
+    for s in walk_no_nested(fi.node):
+        if isinstance(s, ast.Return) and isinstance(s.value, ast.Name) and s.value.id not in out:
+            out.append(s.value.id)
+    return out
+
+
+def attr_stores_chain(fi: FuncInfo, obj: str, chain: Tuple[str, ...]) -> List[ast.stmt]:
+    """Statements `<obj>.<a>.<b>... = value` for the attribute chain given."""
+    want = obj + "." + ".".join(chain)
+    out = []
+    for s in ast.walk(fi.node):
+        if isinstance(s, ast.Assign) and any(unparse(t) == want for t in s.targets):
+            out.append(s)
+    return out
